@@ -89,10 +89,17 @@ func (l *List) Get(key []byte) (kv.Entry, error) {
 }
 
 func (l *List) ScanPrefix(prefix []byte, errOut *error) iter.Seq[kv.Entry] {
+	return kv.WithoutDeletes(l.ScanPrefixWithDeletes(prefix, errOut))
+}
+
+// ScanPrefixWithDeletes merges the memtables keeping the newest version of each
+// key, including deleted entries so that they can mask older versions in
+// sstables.
+func (l *List) ScanPrefixWithDeletes(prefix []byte, errOut *error) iter.Seq[kv.Entry] {
 	tables := l.tablesSnap()
 	iters := make([]iter.Seq[kv.Entry], len(tables))
 	for i, table := range tables {
-		iters[i] = table.ScanPrefix(prefix)
+		iters[i] = table.ScanPrefixWithDeletes(prefix)
 	}
 	return kv.MergeEntries(iters)
 }
